@@ -127,6 +127,7 @@ def judgement(case, pcs, out, d):
 
 
 def run_cases(ctx, cases, attribute=True):
+    K.preload()
     outs = run_pool(K.impl, cases, timeout=K.SAT_TIMEOUT + 20.0)
     pcss, replies = K.run_model(cases, outs, mode=5)
     cov = ctx.cov.setdefault("coverage_table", {})
